@@ -52,6 +52,12 @@ func writeHeader(headerPath string, header Header) error {
 		return err
 	}
 
+	// Write the header to a temporary file and rename it into place, so that
+	// a crash cannot leave an empty or partially written header behind.
+	tmpPath := headerPath + ".tmp"
 	vhook.At("index.writeheader.before")
-	return os.WriteFile(headerPath, data, 0o666)
+	if err = os.WriteFile(tmpPath, data, 0o666); err != nil {
+		return err
+	}
+	return os.Rename(tmpPath, headerPath)
 }
